@@ -15,9 +15,15 @@ VECS = ["float2", "float3", "float4", "int2", "int3", "int4"]
 
 
 class Gen:
-    def __init__(self, rng):
+    def __init__(self, rng, variant=0):
         self.r = rng
         self.n = 0
+        # near-duplicate programs: with another `variant` only the layout of the first struct
+        # changes (drawn from its own PRNG); every later struct - including one that nests the
+        # first - and everything else is drawn from the main PRNG as before
+        import random as _random
+
+        self.vr = _random.Random(f"genmisc-variant-{variant}") if variant else None
 
     def fresh(self, p):
         self.n += 1
@@ -42,6 +48,10 @@ class Gen:
                 for fn, ft in self.structs[ty[7:]]:
                     if ft == t:
                         atoms.append(f"{n}.{fn}")
+                    elif ft.startswith("struct:"):
+                        for gn, gt in self.structs[ft[7:]]:
+                            if gt == t:
+                                atoms.append(f"{n}.{fn}.{gn}")
         if depth >= 2 or r.random() < 0.4:
             if atoms and r.random() < 0.75:
                 return r.choice(atoms)
@@ -76,6 +86,10 @@ class Gen:
                 for fn, ft in self.structs[ty[7:]]:
                     if ft in ("int", "float", "uint"):
                         out.append((f"{n}.{fn}", ft))
+                    elif ft.startswith("struct:"):
+                        for gn, gt in self.structs[ft[7:]]:
+                            if gt in ("int", "float", "uint"):
+                                out.append((f"{n}.{fn}.{gn}", gt))
             elif ty[-1] in "234" and ty[:-1] in ("int", "float"):
                 out.append((f"{n}[{self.r.randrange(int(ty[-1]))}]", ty[:-1]))
         return out
@@ -222,18 +236,35 @@ class Gen:
         self.structs = {}
         out = []
         used_fields = set()
-        for sn in r.sample(STRUCT_NAMES, r.choice([0, 1, 1, 2, 2])):
+        for si, sn in enumerate(r.sample(STRUCT_NAMES, r.choice([0, 1, 1, 2, 2, 2]))):
             fields = []
-            for _ in range(r.randint(1, 4)):
-                fn = r.choice("abcdexyzwuvmnpq") + r.choice(["", "0", "1", "_"])
+            # the main PRNG is always advanced the same way; a variant overrides the first struct
+            drawn = [(r.choice("abcdexyzwuvmnpq") + r.choice(["", "0", "1", "_"]),
+                      r.choice(["int", "float", "float", "uint", "float3", "int2"])) for _ in range(r.randint(1, 4))]
+            if si == 0 and self.vr is not None:
+                vr = self.vr
+                drawn = [(vr.choice("fghijkrst") + vr.choice(["", "2", "3"]), vr.choice(["int", "float", "uint", "int2"]))
+                         for _ in range(vr.randint(1, 4))]
+            for fn, ft in drawn:
                 if fn in used_fields:
                     continue
                 used_fields.add(fn)
-                fields.append((fn, r.choice(["int", "float", "float", "uint", "float3", "int2"])))
+                fields.append((fn, ft))
+            if fields and self.structs and r.random() < 0.5:
+                # a field of an earlier struct type (nested layout)
+                inner = r.choice(sorted(self.structs))
+                fn = "in" + str(len(self.structs))
+                fields.insert(r.randrange(len(fields) + 1), (fn, "struct:" + inner))
             if fields:
                 self.structs[sn] = fields
-                out.append(f"struct {sn} {{ " + " ".join(f"{t} {n};" for n, t in fields) + " }\n")
+                out.append(f"struct {sn} {{ " + " ".join(f"{t[7:] if t.startswith('struct:') else t} {n};" for n, t in fields)
+                           + " }\n")
         genv = {}
+        for sn in sorted(self.structs):
+            if r.random() < 0.6:  # every struct type is usually used by at least one variable
+                gn = self.fresh("g")
+                genv[gn] = "struct:" + sn
+                out.append(f"{sn} {gn};\n")
         for _ in range(r.choice([0, 1, 2, 3])):
             gn = self.fresh("g")
             c = r.random()
@@ -284,5 +315,5 @@ class Gen:
         return "".join(out)
 
 
-def gen_source(rng):
-    return Gen(rng).program()
+def gen_source(rng, variant=0):
+    return Gen(rng, variant).program()
